@@ -251,6 +251,8 @@ def fmt(t, depth=0):
         return t[1].split("::")[-1]
     if h == "index":
         return "%s[%s]" % (fmt(t[1], d), fmt(t[2], d))
+    if h == "callind":
+        return "(%s)(%s)" % (fmt(t[1], d), ", ".join(fmt(a, d) for a in t[2]))
     if h == "seq":
         return "{%s; %s}" % ("; ".join(fmt(x, d) for x in t[1]), fmt(t[2], d))
     if h == "letstmt":
